@@ -344,6 +344,10 @@ _BAD_MATCH = [
     ('1', ['P(a) -> a, Q(b) -> 0']), ('Bx.init(1)', ['P(a) -> a, Q(a) -> 0']), ('En.P(1)', ['Zz(a) -> a, P(a) -> a, Q(a) -> 0']),
     ('En.P(1)', ['P(a, b) -> a, Q(a) -> 0']), ('En.Q("s")', ['P(a) -> a, Q((a, b)) -> a']), ('(1, 2)', ['P(a) -> a, _ -> 0']),
     ('En.P(1)', ['(a, b) -> a']), ('En.P(1)', ['{ a, b } -> a']),
+    # rows of one match that disagree about the number of elements of a variant / tuple
+    ('(En.P(1), En.P(2))', ['(P(a), P(d)) -> a, (P(a, b), P(e)) -> 1, (Q(f), _) -> 3, (_, Q(g)) -> 4']),
+    ('(En.P(1), 2)', ['(P(a), _) -> a, (P(a), _, _) -> 1, (Q(f), _) -> 3']),
+    ('(1, 2)', ['(a, _) -> a, (a, _, _) -> 1']),
 ]
 _USES = [
     '{ let g = () -> %s; g() }', '{ let g = (z: int) -> z + %s; g(1) }', '%s + 1', 'Main.id(%s)', '{ let h = () -> () -> %s; h()() }',
@@ -369,6 +373,22 @@ def bad_pattern_program(rng):
         arms = ', '.join(a.replace('-> a', '-> ' + (use % 'a')) if i == 0 else a for i, a in enumerate(arms.split(', ')))
         body = rng.pick(['match %s { %s }', 'if let %s = %s { 1 } else { 0 }']) 
         body = (body % (val, arms)) if body.startswith('match') else ('if let %s = %s { %s } else { 0 }' % (arms.split(' -> ')[0], val, use % 'a'))
-    return ('class Bx(val v: int, val w: int) {}\nclass En(P(int), Q(Str)) {}\n'
+    return ('import { Pair, Triple } from std.tuples;\nclass Bx(val v: int, val w: int) {}\nclass En(P(int), Q(Str)) {}\n'
             'class Main {\n  function u(): unit = {}\n  function id(x: int): int = x\n  function f(): int = %s\n'
             '  function main(): unit = Process.println(Str.fromInt(Main.f()))\n}\n' % body)
+
+
+# ----------------------------------------------------------------------------- names the parser invents during recovery
+
+def recovered_name_programs():
+    """The parser calls a missing identifier `missing`; programs that also USE that spelling reach definitions that were
+    never checked."""
+    uses = ['() -> missing', 'missing', 'missing + 1', '{ let g = () -> missing; g() }', 'match missing { _ -> 1 }', 'Main.f2(missing)',
+            '{ let missing = 1; () -> missing }']
+    out = []
+    for head in ('class {\n}\n', 'class (val a: int) {}\n', 'interface {\n}\n', 'class Main2 { function (): int = 1 }\n',
+                 'class Main2 { function g(: int): int = 1 }\n', 'import { } from A;\n'):
+        for u in uses:
+            rt = '() -> int' if u.startswith('() ->') or u.endswith('() -> missing }') else 'int'
+            out.append(head + 'class Main { function f2(x: int): int = x\n  function f(): %s = %s }\n' % (rt, u))
+    return out
